@@ -17,6 +17,8 @@ TRUSTED_BASE = [
     'the harness interns strings injectively (0 = "", 1..4 = the four documented metadata keys as LITERALS, 5 = the wrap text), projects returned errors to trees by type '
     '(pkg/errors withStack layers are transparent) and attributes collaborator calls to messages by goroutine id',
     'the return value of the Router\'s own Ack()/Nack() call is not observable and is projected out of the comparison',
+    'modelled, not verified: the step granularity of Handler/PoisonConc.v (one step per point where another goroutine could interfere; Go memory model); '
+    'PoisonQueue(Retry(h)): C12\'s model Handler/Retry.v is imported as is and evaluated with an environment whose select never takes ctx.Done() (the harness uses a live context and no MaxElapsedTime)',
     'testing, not proof: the thorough tier re-runs the scenarios under the Go race detector (state shared between in-flight messages)',
 ]
 ASSUMPTIONS = [
